@@ -273,6 +273,15 @@ fn eval_case<P: Property>(
     }
     let mut unknown = vec![];
     let mut known_hits: Vec<usize> = vec![];
+    if survey_mode() {
+        // triage aid (never used by registered commands): count every failure key, do not stop
+        for f in obs.failures.iter() {
+            let mut g = SURVEY.lock().unwrap();
+            let e = g.entry(f.key.clone()).or_insert((0, f.msg.clone()));
+            e.0 += 1;
+        }
+        obs.failures.clear();
+    }
     for f in obs.failures.iter() {
         match match_known(known, P::ID, &f.key) {
             Some(i) => {
@@ -315,6 +324,12 @@ fn eval_case<P: Property>(
         }
     }
     unknown
+}
+
+pub static SURVEY: Mutex<BTreeMap<String, (u64, String)>> = Mutex::new(BTreeMap::new());
+pub fn survey_mode() -> bool {
+    static ON: std::sync::OnceLock<bool> = std::sync::OnceLock::new();
+    *ON.get_or_init(|| std::env::var("VERIF_SURVEY").is_ok())
 }
 
 pub struct RunOpts {
@@ -561,6 +576,13 @@ pub fn run<P: Property>(opts: &RunOpts) -> i32 {
         }
     }
 
+    if survey_mode() {
+        for (k, (n, msg)) in SURVEY.lock().unwrap().iter() {
+            println!("SURVEY {n:>8}  {k}\n          e.g. {msg}");
+        }
+        println!("SURVEY MODE: results above are for triage only");
+        return 2;
+    }
     // ---- report
     for (id, n) in total.excluded_known.iter() {
         let k = known.iter().find(|k| &k.id == id);
